@@ -9,7 +9,7 @@ CLAUSE_PROP = {"ShouldReject": "C31", "ShouldAccept": "C31", "RejectedFired": "C
                "ThreadAlive": "C12", "OtherStopped": "C12", "FabricStopped": "C12", "DispatchAfterStop": "C12",
                "Hang": "C12", "NoProgress": "C12", "Error": "C10", "Harness": "C10"}
 PROFILE = {
-  "C10": dict(cancel=0.0, stop=0.0, tcaps=(50,), nsrc=(1, 4), stall=0.5),
+  "C10": dict(cancel=0.0, stop=0.0, tcaps=(50,), nsrc=(1, 4), stall=0.5, long=0.02),
   "C11": dict(cancel=0.9, stop=0.0, tcaps=(50,), nsrc=(2, 4), stall=0.25),
   "C12": dict(cancel=0.2, stop=1.0, tcaps=(50,), nsrc=(1, 3), stall=0.25),
   "C31": dict(cancel=0.3, stop=0.0, tcaps=(1, 2, 3), nsrc=(3, 6), stall=0.2),
@@ -17,6 +17,13 @@ PROFILE = {
 
 
 def gen(rng, P):
+  if rng.random() < P.get("long", 0.0):
+    # a source asked for MANY posts (more than 256) and left alone: it posts exactly that often and then stops by itself
+    n = rng.choice([257, 258, 300])
+    kind = rng.choice(["fifo", "lifo"])
+    ops = [["start", "a1"], ["tpost", "a1", kind, "A", 1, n, rng.random() < 0.5, 0], ["sleep", n + 12]]
+    return {"cap": 40, "tcap": 50, "horizon": n + 8, "aos": [{"name": "a1", "spied": False, "instrumented": True, "handler_ops": {}}],
+            "drivers": {"d1": ops}}
   names = ["a1", "a2"][:rng.randint(1, 2)]
   aos = [{"name": nm, "spied": rng.random() < 0.5, "instrumented": True, "handler_ops": {}} for nm in names]
   ops = [["start", nm] for nm in names]
@@ -58,13 +65,14 @@ def _work(args):
     rng = random.Random((seed << 21) ^ (tid * 2654435761 % (1 << 32)))
     cfg = gen(rng, PROFILE[prop])
     pol = dsched.RandomPolicy(rng, stick=rng.choice([0.0, 0.5, 0.8])) if tid % 2 else dsched.PCTPolicy(rng, 3, 150)
-    pol.time_limit = H
-    if rng.random() < PROFILE[prop]["stall"]:
+    hz = cfg.get("horizon", H)
+    pol.time_limit = hz
+    if rng.random() < PROFILE[prop]["stall"] and hz == H:
       # slow threads: a timer, an active object or the driver is held back for 1-3 time units up to 3 times; the clock goes on
       pol = dsched.StallPolicy(pol, rng, p=rng.choice([0.02, 0.05, 0.15]), durations=(1, 2, 3, 4), max_stalls=rng.randint(1, 3),
                                only=rng.choice([("tm",), ("tm", "ao_"), None]))
-    fs = dsched.FairSuffix(pol, 2500, time_limit=H)
-    r = sysdrive.run_one(cfg, fs, 5000)
+    fs = dsched.FairSuffix(pol, 2500 if hz == H else 40000, time_limit=hz)
+    r = sysdrive.run_one(cfg, fs, 5000 if hz == H else 60000)
     r["cfg"] = cfg
     out.append((tid, r))
   return out
@@ -103,7 +111,7 @@ def check(prop):
         started = [e[2] for e in r["ev"] if e[0] == "ret" and e[1] == "start"]
         f.write(json.dumps({"tid": tid, "ev": r["ev"], "tcap": r["cfg"]["tcap"], "aos": [a["name"] for a in r["cfg"]["aos"]],
                             "started": started, "end": {"outcome": r["outcome"], "drivers_done": r["drivers_done"] or r["outcome"] == "quiescent",
-                                                        "alive": r["alive"], "horizon": H}}) + "\n")
+                                                        "alive": r["alive"], "horizon": r["cfg"].get("horizon", H)}}) + "\n")
     t = tlc.run("TimerTrace.tla", "SPECIFICATION TSpec\nCHECK_DEADLOCK FALSE\n", workers="auto", env={"TRACE_FILE": path}, timeout=1800)
     os.unlink(path)
     if not t.ok:
